@@ -12,6 +12,13 @@ import (
 )
 
 func init() {
+	suites["route"] = suite{
+		rule: "episodes on a real clusterClient over scripted nodes, single-command paths: topology (1-4 shards, replicas, holes, CLUSTER SLOTS v7 / CLUSTER SHARDS v8, plain / SendToReplicas modes, MaxMovedRedirections 0-3, retry budget 0-2, seed outside the topology), table/rslots/conns dumps after every refresh, Do/DoCache with redirect chains up to depth 4 (MOVED/ASK to known, unknown and the same node, TRYAGAIN/LOADING/CLUSTERDOWN/transport/ERR/nil), key-less commands, unowned slots (ErrNoSlot after a refresh), topology change + refresh; '!route' lines compare the real _pick of boundary/random slots with the specification's owner computed from the topology description, '!trace' lines judge the observed per-node logs; non-trivial = op with at least one consumed injection or a table dump",
+		run:  runRoute,
+		replay: func(c *Ctx, lines []string) {
+			runEpisodeLines(c, lines)
+		},
+	}
 	suites["cluster"] = suite{
 		rule: "episodes on a real clusterClient over scripted nodes: topology (1-5 shards, replicas, holes, CLUSTER SLOTS v7 / CLUSTER SHARDS v8, plain / SendToReplicas modes, MaxMovedRedirections 0-3, retry budget 0-2), table/rtable/conns dumps, _pickMulti/_pickMultiCache differentials, Do/DoCache/DoMulti/DoMultiCache with injected MOVED/ASK/TRYAGAIN/LOADING/CLUSTERDOWN/transport/ERR/nil replies on chosen (node, command) pairs (chains up to depth 4, unknown and self targets), MULTI…EXEC blocks, topology changes + refresh; '!trace' lines evaluate the specification predicates on the real per-node logs; non-trivial = op whose script had at least one consumed injection or a batch split over 2+ nodes",
 		run:  runCluster,
@@ -241,6 +248,20 @@ func (e *episode) exec(line string) {
 		}
 		e.emit(line, ans+" | "+canon, used)
 		e.oracle(specs, strings.Fields(ans), raw)
+	case "!route":
+		// !route <ver> <tls> <desc…> ; <slot>… : where the real client routes a write to each slot
+		semi := indexOf(w, ";")
+		var out []string
+		for _, sw := range w[semi+1:] {
+			slot, _ := strconv.Atoi(sw)
+			a := e.vc.PickAddr(uint16(slot), false)
+			if a == "" {
+				out = append(out, "-")
+			} else {
+				out = append(out, hx(a))
+			}
+		}
+		e.emit(line, strings.Join(out, " "), true)
 	case "pickmulti", "pickmcache":
 		var specs []cmdSpec
 		for _, cw := range w[1:] {
@@ -333,6 +354,48 @@ func (e *episode) oracle(specs []cmdSpec, results []string, raw string) {
 	if len(evs) == 0 {
 		evs = []string{"-"}
 	}
+	// stable witness: an EXEC of an accepted MULTI…EXEC block travelling without its block
+	// (cluster.go doresultfn when the redirect arrives on the EXEC itself)
+	open := -1
+	for _, sp := range specs {
+		switch sp.flags {
+		case "M":
+			open = sp.id
+		case "E":
+			if open >= 0 {
+				m, x := open, sp.id
+				accepted := true
+				e.s.mu.Lock()
+				for _, ev := range e.s.events {
+					if ev.id == m && ev.reply != "s:"+hx("OK") {
+						accepted = false
+					}
+				}
+				e.s.mu.Unlock()
+				for _, nodeLog := range strings.Fields(raw) {
+					if !accepted {
+						break
+					}
+					if nodeLog == "-" {
+						continue
+					}
+					for _, call := range strings.Split(nodeLog[strings.Index(nodeLog, "=")+1:], ";") {
+						items := strings.Split(call[strings.Index(call, ":")+1:], ",")
+						hasE, hasM := false, false
+						for _, it := range items {
+							hasE = hasE || it == strconv.Itoa(x)
+							hasM = hasM || it == strconv.Itoa(m)
+						}
+						if hasE && !hasM {
+							e.fails = append(e.fails, [3]string{"multi:exec-redirect-resent-alone", strings.Join(cs, " "),
+								fmt.Sprintf("EXEC (command %d) was sent to a node without its MULTI…EXEC block (MULTI is command %d): %s", x, m, nodeLog)})
+						}
+					}
+				}
+			}
+			open = -1
+		}
+	}
 	maxRedir := e.opt["maxredir"]
 	e.emit(fmt.Sprintf("!trace maxredir=%s %s ; %s ; %s ; %s", maxRedir, strings.Join(cs, " "), strings.Join(results, " "), raw, strings.Join(evs, " ")), "ok", false)
 }
@@ -349,8 +412,8 @@ func runEpisodeLines(c *Ctx, lines []string) {
 		for try := 0; try < 6; try++ {
 			e = &episode{}
 			for _, l := range cur {
-				if strings.HasPrefix(l, "!") {
-					continue // oracle lines are regenerated
+				if strings.HasPrefix(l, "!trace") {
+					continue // trace oracle lines are regenerated from the run
 				}
 				e.exec(l)
 			}
@@ -502,7 +565,7 @@ func joinInj(is []inj) string {
 	return strings.Join(s, " ")
 }
 
-func genEpisode(c *Ctx, idx int) []string {
+func genEpisode(c *Ctx, idx int, flavor string) []string {
 	ver := 7
 	if c.Rng.IntN(2) == 0 {
 		ver = 8
@@ -531,6 +594,18 @@ func genEpisode(c *Ctx, idx int) []string {
 		"serve " + t.msg(ver, c.Rng.IntN(2) == 0).String(),
 		"new", "table", "conns",
 	}
+	{
+		slots := []string{"0", "16383"}
+		for _, d := range t.ds {
+			for _, r := range d.ranges {
+				slots = append(slots, fmt.Sprint(r[0]), fmt.Sprint(r[1]), fmt.Sprint(min(r[1]+1, 16383)))
+			}
+		}
+		for i := 0; i < 4; i++ {
+			slots = append(slots, fmt.Sprint(c.Rng.IntN(16384)))
+		}
+		lines = append(lines, fmt.Sprintf("!route %d 0 %s ; %s", ver, descTokens(t.ds), strings.Join(slots, " ")))
+	}
 	if mode != "plain" {
 		rs := []string{"0", "1", "2", "3", "4", "5", "16383"}
 		for i := 0; i < 12; i++ {
@@ -550,7 +625,14 @@ func genEpisode(c *Ctx, idx int) []string {
 	nops := 1 + c.Rng.IntN(4)
 	injected := false
 	for op := 0; op < nops; op++ {
-		switch kind := c.Rng.IntN(10); {
+		kind := c.Rng.IntN(10)
+		if flavor == "route" && kind >= 3 && kind < 8 {
+			kind = c.Rng.IntN(3)
+		}
+		if flavor == "batch" && kind < 3 && c.Rng.IntN(4) != 0 {
+			kind = 3 + c.Rng.IntN(5)
+		}
+		switch {
 		case kind < 3: // single command
 			slot := t.interestingSlot(c)
 			if c.Rng.IntN(10) == 0 {
@@ -633,9 +715,11 @@ func genEpisode(c *Ctx, idx int) []string {
 							}
 						}
 					}
-					if c.Rng.IntN(3) == 0 { // a second victim
+					// a second victim — never the EXEC together with a member: a server that redirected a member at
+					// queue time answers EXEC with EXECABORT (the client would send such an EXEC a second time on its own)
+					if c.Rng.IntN(3) == 0 && specs[victim].flags != "E" {
 						v2 := c.Rng.IntN(len(specs))
-						if v2 != victim {
+						if v2 != victim && specs[v2].flags != "E" {
 							is = append(is, genChain(c, t, v2, owner, 1, false)...)
 						}
 					}
@@ -695,6 +779,12 @@ func genEpisode(c *Ctx, idx int) []string {
 
 func runCluster(c *Ctx) {
 	for i := 0; i < c.N; i++ {
-		runEpisodeLines(c, genEpisode(c, i))
+		runEpisodeLines(c, genEpisode(c, i, "batch"))
+	}
+}
+
+func runRoute(c *Ctx) {
+	for i := 0; i < c.N; i++ {
+		runEpisodeLines(c, genEpisode(c, i, "route"))
 	}
 }
